@@ -81,15 +81,34 @@ def big_tx(size, witness_extra=0):
 
 
 def lib_check_tx(m):
+    """verdict of CheckTransaction on the immutable transaction of model m; the same field values held by a mutable
+    transaction, and by a mutable transaction whose input / output lists mix immutable and mutable element objects (the
+    state a caller is in after replacing some inputs of a received transaction), must get the same verdict"""
     from bitcoin.core import CheckTransaction, CheckTransactionError, ValidationError
-    tx = C.lib_tx(m)
-    try:
-        CheckTransaction(tx)
-        return ('ok',)
-    except ValidationError as e:
-        return ('reject', type(e).__name__)
-    except Exception as e:  # noqa
-        return ('EXC', '%s: %s' % (type(e).__name__, str(e)[:80]))
+
+    def verdict(tx):
+        try:
+            CheckTransaction(tx)
+            return ('ok',)
+        except ValidationError as e:
+            return ('reject', type(e).__name__)
+        except Exception as e:  # noqa
+            return ('EXC', '%s: %s' % (type(e).__name__, str(e)[:80]))
+    imm = C.lib_tx(m)
+    first = verdict(imm)
+    flavours = [('mutable transaction', C.lib_tx(m, mutable=True))]
+    for par in (0, 1):
+        mix = C.lib_tx(m, mutable=True)
+        for i in range(par, len(mix.vin), 2):
+            mix.vin[i] = imm.vin[i]
+        for j in range(par, len(mix.vout), 2):
+            mix.vout[j] = imm.vout[j]
+        flavours.append(('mutable transaction whose %s inputs and outputs are immutable objects' % ('even' if par == 0 else 'odd'), mix))
+    for what, tx in flavours:
+        v = verdict(tx)
+        if v[0] != first[0]:
+            raise Viol('CheckTransaction gives a different verdict for the same field values held by a %s' % what, first, v)
+    return first
 
 
 class TxRules(Family):
